@@ -630,6 +630,7 @@ type deepRes struct {
 	Err   string `json:"err"`
 	OnMsg int    `json:"on_msg"`
 	Build string `json:"build,omitempty"`
+	Alloc uint64 `json:"alloc_bytes"` // bytes allocated while handling (TotalAlloc delta)
 }
 
 func buildDeep(s deepSpec) ([]byte, int, error) {
@@ -692,12 +693,14 @@ func childDeep(in []byte) any {
 		return &deepRes{Build: err.Error()}
 	}
 	r := &deepRes{Bytes: len(p), Depth: built}
-	if err := conn.VerifHandleMessage(t0.Unix()<<32|1, &bin.Buffer{Buf: p}); err != nil {
-		r.Err = err.Error()
-		if len(r.Err) > 200 {
-			r.Err = r.Err[:200]
+	r.Alloc, _ = mon.MeasureAlloc(func() {
+		if err := conn.VerifHandleMessage(t0.Unix()<<32|1, &bin.Buffer{Buf: p}); err != nil {
+			r.Err = err.Error()
+			if len(r.Err) > 200 {
+				r.Err = r.Err[:200]
+			}
 		}
-	}
+	})
 	r.OnMsg = w.onMsg
 	return r
 }
